@@ -192,7 +192,7 @@ func (c *Ctx) ruleAttrTables() {
 func init() {
 	register(&Check{
 		ID: "C04",
-		Expl: "Decides structural necessary conditions of the codec round trip in pkg/packet/bgp: (E4.decode-produces) every concrete type implementing a codec interface is allocated by some function reachable from the parse entry points, so the decoder has a row for every type a serialiser exists for; " +
+		Expl: "(E4.afi-addrlen) in the NLRI dispatch, the IPv4/IPv6 address length handed to the prefix decoders is evaluated for every family constant a case lists and must follow that family's AFI. Decides structural necessary conditions of the codec round trip in pkg/packet/bgp: (E4.decode-produces) every concrete type implementing a codec interface is allocated by some function reachable from the parse entry points, so the decoder has a row for every type a serialiser exists for; " +
 			"(E4.attr-tables) the attribute factory switch, PathAttrFlags and the RFC flag classes agree row by row; (E2d) Serialize/Len/String/MarshalJSON/… of every type that can be stored in a route do not write their receiver (re-serialising is a fixpoint only if serialising has no side effect); " +
 			"(E3.emitted-length) framing helpers derive header length and the extended-length flag from the bytes they emit, not from a stored Length; (E6.addpath-direction) decoders ask for the receive direction of ADD-PATH and serialisers for the send direction; (E3.guard-order) writer and reader of a type test the same option constants in the same order around wire-touching statements; (E3.decoded-fields) every field a decodable type's Serialize reads is filled somewhere on the decode side. (E4.case-ratchet) against a committed baseline, no switch of the code this property is anchored in has lost a named case. (E6.call-ratchet) against a committed baseline, no function of that code has stopped calling (directly or through helpers) a non-trivial callee it called on the reviewed tree.",
 		Not: "Byte-level correctness of any encoder/decoder, Len()==bytes emitted, equality after a round trip and RFC well-formedness of emitted messages are value-level and not decided.",
@@ -209,6 +209,7 @@ func init() {
 			c.ruleGuardOrder("E3.guard-order", []string{"pkg/packet/bgp"}, 2)
 			c.ruleDecodedFields("E3.decoded-fields", []string{"pkg/packet/bgp"}, 110)
 			c.ruleOptionScanAny("E6.option-scan-any")
+			c.ruleAfiAddrLen("E4.afi-addrlen", 2)
 		},
 	})
 	register(&Check{
